@@ -48,7 +48,59 @@ func atomStr(a *sym) *sym {
 			pc.sol.send("(assert (= (atom_str " + pc.lits[l] + ") " + smtString(l) + "))\n")
 		}
 	}
+	if !pc.atomStrSeen[a.e] {
+		if pc.atomStrSeen == nil {
+			pc.atomStrSeen = map[string]bool{}
+		}
+		pc.atomStrSeen[a.e] = true
+		pc.atomStrTerms = append(pc.atomStrTerms, a.e)
+		if pc.urlStruct {
+			pc.structureAtom(a.e)
+		}
+	}
 	return &sym{s: sStr, e: "(atom_str " + a.e + ")"}
+}
+
+// URL text structure, switched on the first time the code under test ANALYSES the text of an
+// abstract IRI or host (HasPrefix/HasSuffix/Contains/TrimPrefix on it): from then on the text of an
+// IRI is "https://" ++ text(host) ++ "/" ++ path, a host is name[:port], and texts are injective, so
+// that a model is a set of real URLs the native replay can use verbatim.
+const reHostText = `(re.++ (re.+ (re.union (re.range "a" "z") (re.range "0" "9") (str.to_re "."))) (re.opt (re.++ (str.to_re ":") ((_ re.loop 1 4) (re.range "1" "9")))))`
+const rePathText = `(re.* (re.union (re.range "a" "z") (re.range "0" "9")))`
+
+func (p *pathCtx) enableURLStructure() {
+	if p.urlStruct {
+		return
+	}
+	p.urlStruct = true
+	p.note("URL text structure axioms enabled (the code under test analysed the text of an abstract IRI)")
+	p.sol.send("(declare-fun iri_path (Atom) String)\n(declare-fun str_atom (String) Atom)\n")
+	for _, t := range append([]string(nil), p.atomStrTerms...) {
+		p.structureAtom(t)
+	}
+}
+
+func (p *pathCtx) structureAtom(t string) {
+	if p.structDone == nil {
+		p.structDone = map[string]bool{}
+	}
+	if p.structDone[t] || strings.HasPrefix(t, "|lit!") {
+		return
+	}
+	p.structDone[t] = true
+	p.sol.send("(assert (= (str_atom (atom_str " + t + ")) " + t + "))\n")
+	if strings.HasPrefix(t, "(iri_host ") || strings.HasPrefix(t, "(host_name ") {
+		p.sol.send("(assert (str.in_re (atom_str " + t + ") " + reHostText + "))\n")
+		return
+	}
+	h := "(iri_host " + t + ")"
+	p.sol.send("(assert (= (atom_str " + t + ") (str.++ \"https://\" (atom_str " + h + ") \"/\" (iri_path " + t + "))))\n")
+	p.sol.send("(assert (str.in_re (iri_path " + t + ") " + rePathText + "))\n")
+	if !p.atomStrSeen[h] {
+		p.atomStrSeen[h] = true
+		p.atomStrTerms = append(p.atomStrTerms, h)
+	}
+	p.structureAtom(h)
 }
 
 // atomBinop: operations on strings of which at least one is an atom.
